@@ -9,6 +9,8 @@ import (
 	"fmt"
 	"io"
 	"net/http"
+	"os"
+	"os/exec"
 	"strings"
 	"time"
 
@@ -28,6 +30,8 @@ type stub struct {
 	status int
 	body   []byte
 	ctype  string
+	clen   string // announced Content-Length relative to the body: "" / CLHonest, CLUnknown, CLSmaller, CLLarger, CLNegative, CLHuge
+	clenV  int64
 	// next: answers of the following requests (device flow: first the device authorization, then the token endpoint)
 	next  *stub
 	calls int
@@ -45,12 +49,86 @@ func (s *stub) RoundTrip(req *http.Request) (*http.Response, error) {
 	if s.ctype != "" {
 		h.Set("Content-Type", s.ctype)
 	}
-	return &http.Response{StatusCode: s.status, Status: fmt.Sprintf("%d X", s.status), Header: h,
+	cl := int64(len(s.body))
+	switch s.clen {
+	case "CLUnknown":
+		cl = -1
+	case "CLSmaller", "CLLarger", "CLNegative", "CLHuge":
+		cl = s.clenV
+	}
+	h.Set("Content-Length", fmt.Sprint(cl))
+	return &http.Response{StatusCode: s.status, Status: fmt.Sprintf("%d X", s.status), Header: h, ContentLength: cl,
 		Body: io.NopCloser(strings.NewReader(string(s.body))), Request: req, ProtoMajor: 1, ProtoMinor: 1}, nil
 }
 
 func parseJWS(tok string) (*jose.JSONWebSignature, error) {
 	return jose.ParseSigned(tok, []jose.SignatureAlgorithm{jose.ES256})
+}
+
+type jwksJob struct {
+	Status int
+	Body   []byte
+	CType  string
+	CLen   string
+	CLenV  int64
+}
+
+type childCrash struct{ out string }
+
+func (c childCrash) Error() string { return c.out }
+
+func jwksInChild(sb *stub) error {
+	job, _ := json.Marshal(jwksJob{sb.status, sb.body, sb.ctype, sb.clen, sb.clenV})
+	ctx, cancel := context.WithTimeout(context.Background(), 20*time.Second)
+	defer cancel()
+	cmd := exec.CommandContext(ctx, os.Args[0], "jwks-child")
+	cmd.Stdin = strings.NewReader(string(job))
+	out, err := cmd.CombinedOutput()
+	if err != nil { // crashed (or hung and was killed)
+		tail := string(out)
+		if len(tail) > 600 {
+			tail = tail[:600]
+		}
+		panic(childCrash{"child process: " + err.Error() + ": " + tail})
+	}
+	return errors.New("returned: " + strings.TrimSpace(string(out)))
+}
+
+// jwksChild: one remote-key-set download against the scripted answer read from stdin
+func jwksChild() {
+	var job jwksJob
+	if err := json.NewDecoder(os.Stdin).Decode(&job); err != nil {
+		fmt.Println("bad job", err)
+		os.Exit(0)
+	}
+	hc := &http.Client{Transport: &stub{status: job.Status, body: job.Body, ctype: job.CType, clen: job.CLen, clenV: job.CLenV}}
+	ks := rp.NewRemoteKeySet(hc, opfix.Issuer+"/keys")
+	jws, err := parseJWS(sign(opfix.ECKey("someone-else"), "ES256", "kx", []byte(`{"sub":"a"}`)))
+	if err == nil {
+		ctx, cancel := context.WithTimeout(context.Background(), 5*time.Second)
+		defer cancel()
+		_, err = ks.VerifySignature(ctx, jws)
+	}
+	fmt.Println(err)
+	os.Exit(0)
+}
+
+// announce: a Content-Length class and value for a body of n bytes
+func (g *gen) announce(n int) (string, int64) {
+	r := g.r
+	switch r.IntN(12) {
+	case 0:
+		return "CLUnknown", -1
+	case 1:
+		return "CLSmaller", int64(r.IntN(n+1) / 2)
+	case 2:
+		return "CLLarger", int64(n + 1 + r.IntN(5000))
+	case 3:
+		return "CLNegative", -2 - int64(r.IntN(1000))
+	case 4, 5: // nothing that could really be allocated: at least 2^62
+		return "CLHuge", drv.Pick(r, []int64{9223372036854775807, 4611686018427387904, 4611686018427387905, 9223372036854775295, 6917529027641081856})
+	}
+	return "CLHonest", int64(n)
 }
 
 type caller struct {
@@ -84,7 +162,6 @@ func clientCases(w *emit.Writer, g *gen, n int) {
 		panic(err)
 	}
 	cl := caller{hc}
-	someJWS := sign(opfix.ECKey("someone-else"), "ES256", "kx", []byte(`{"sub":"a"}`))
 	helpers := []helper{
 		{"HDiscover", scDiscovery, func(e string) error { _, err := client.Discover(ctx, e, hc); return err }},
 		{"HTokenEndpoint", scTokenResponse, func(string) error {
@@ -114,18 +191,17 @@ func clientCases(w *emit.Writer, g *gen, n int) {
 			return err
 		}},
 		{"HJwks", scJWKS, func(string) error {
-			ks := rp.NewRemoteKeySet(hc, opfix.Issuer+"/keys")
-			jws, err := parseJWS(someJWS)
-			if err != nil {
-				return err
-			}
-			_, err = ks.VerifySignature(ctx, jws)
-			return err
+			// the remote key set downloads in a goroutine of its own: a panic there cannot be recovered
+			// here, so the call runs in a child process and a crash is the observed outcome
+			return jwksInChild(sb)
 		}},
 	}
 	subjects := []string{"alice", "bob", "", "https://op.example.com", "https://other.example.com"}
 	for i := 0; i < n; i++ {
 		h := drv.Pick(r, helpers)
+		if i >= len(helpers) && i < 2*len(helpers) {
+			h = helpers[i-len(helpers)]
+		}
 		tags := []string{"kind=client"}
 		var doc *J
 		valid := true
@@ -197,6 +273,10 @@ func clientCases(w *emit.Writer, g *gen, n int) {
 		}
 		sb.status, sb.body = status, body
 		sb.ctype = drv.Pick(r, []string{"application/json", "", "text/html"})
+		sb.clen, sb.clenV = g.announce(len(body))
+		if i < 2*len(helpers) && i >= len(helpers) { // an absurd Content-Length (either status class)
+			sb.clen, sb.clenV = "CLHuge", drv.Pick(r, []int64{9223372036854775807, 4611686018427387904})
+		}
 		var err error
 		p := drv.Catch(func() { err = h.call(expect) })
 		obs := "CRetOk"
@@ -219,12 +299,12 @@ func clientCases(w *emit.Writer, g *gen, n int) {
 				doc = nil
 			}
 		}
-		ans := fmt.Sprintf("{| a_ok := %s; a_body := %s |}", emit.Bool(status == 200), bd)
+		ans := fmt.Sprintf("{| a_ok := %s; a_body := %s; a_clen := %s |}", emit.Bool(status == 200), bd, sb.clen)
 		top := -1
 		if doc != nil {
 			top = int(doc.Kind)
 		}
-		tags = append(tags, "helper="+h.name, fmt.Sprintf("status=%d", status), fmt.Sprintf("body_top=%d", top), fmt.Sprintf("trailing=%v", trailing))
+		tags = append(tags, "helper="+h.name, fmt.Sprintf("status=%d", status), fmt.Sprintf("body_top=%d", top), fmt.Sprintf("trailing=%v", trailing), "clen="+sb.clen)
 		w.Add(emit.Case{
 			Input:    emit.Ctor("IClient", h.name, ans, emit.Str(expect), Tables(r, doc)),
 			Observed: emit.Ctor("OClient", obs),
@@ -284,6 +364,8 @@ func deviceCases(w *emit.Writer, g *gen, n int) (ambiguous int) {
 		okTok := jobj(kv{"access_token", jstr("at")}, kv{"token_type", jstr("Bearer")}, kv{"expires_in", drv.Pick(r, []*J{jint(300), jint(0), jbig("18446744073709551615"), jnull()})})
 		ts, tb, tterm, tdoc := g.answer(scTokenResponse, okTok)
 		sb := &stub{status: ds, body: db, next: &stub{status: ts, body: tb}}
+		sb.clen, sb.clenV = g.announce(len(db))
+		sb.next.clen, sb.next.clenV = g.announce(len(tb))
 		cl := caller{&http.Client{Transport: sb}}
 		var err error
 		var interval int
@@ -333,8 +415,8 @@ func deviceCases(w *emit.Writer, g *gen, n int) (ambiguous int) {
 			tags = append(tags, "f=device-interval")
 		}
 		w.Add(emit.Case{
-			Input: emit.Ctor("IDevice", fmt.Sprintf("{| a_ok := %s; a_body := %s |}", emit.Bool(ds == 200), dterm),
-				fmt.Sprintf("{| a_ok := %s; a_body := %s |}", emit.Bool(ts == 200), tterm), Tables(r, ddoc, tdoc)),
+			Input: emit.Ctor("IDevice", fmt.Sprintf("{| a_ok := %s; a_body := %s; a_clen := %s |}", emit.Bool(ds == 200), dterm, sb.clen),
+				fmt.Sprintf("{| a_ok := %s; a_body := %s; a_clen := %s |}", emit.Bool(ts == 200), tterm, sb.next.clen), Tables(r, ddoc, tdoc)),
 			Observed: emit.Ctor("OClient", obs),
 			Tags:     tags,
 			Human:    map[string]any{"device_answer": short(db), "token_answer": short(tb), "panic": p, "err": fmt.Sprint(err), "interval": interval},
